@@ -401,6 +401,62 @@ Theorem exception_message_concat args : forallb stateless args = true ->
   exception_what args = spec_message (map render args).
 Proof. intros _. unfold exception_what, make_string. apply make_exception_concat. Qed.
 
+(* ---------- the conversion text of an argument is never used ---------- *)
+
+Lemma render_with_conv c a : render (with_conv c a) = render a.
+Proof. destruct a; reflexivity. Qed.
+Lemma render_forget_conv a : render (forget_conv a) = render a.
+Proof. destruct a; reflexivity. Qed.
+Lemma map_render_with_conv c l : map render (map (with_conv c) l) = map render l.
+Proof. rewrite map_map. apply map_ext. apply render_with_conv. Qed.
+Lemma map_render_forget_conv l : map render (map forget_conv l) = map render l.
+Proof. rewrite map_map. apply map_ext. apply render_forget_conv. Qed.
+
+Lemma exception_what_concat args : exception_what args = spec_message (map render args).
+Proof. unfold exception_what, make_string. apply make_exception_concat. Qed.
+
+(* the message is a function of the stream texts alone, for every number of arguments *)
+Theorem message_by_stream_text args1 args2 : map render args1 = map render args2 ->
+  exception_what args1 = exception_what args2.
+Proof. intros H. rewrite !exception_what_concat, H. reflexivity. Qed.
+
+Theorem message_ignores_conversion args : exception_what (map forget_conv args) = exception_what args.
+Proof. apply message_by_stream_text, map_render_forget_conv. Qed.
+
+(* at every arity and every position: changing the conversion text of one argument changes nothing *)
+Theorem message_conversion_irrelevant_at pre shown c1 c2 post :
+  exception_what (pre ++ ADual shown c1 :: post) = exception_what (pre ++ ADual shown c2 :: post).
+Proof. apply message_by_stream_text. rewrite !map_app. reflexivity. Qed.
+
+(* a single argument: the message is its stream text, whatever it converts to *)
+Theorem message_single_dual shown conv : exception_what [ADual shown conv] = shown.
+Proof. reflexivity. Qed.
+
+(* one argument alone gives what it gives after an empty first argument: raise(x) = raise("", x) *)
+Theorem message_single_is_pair a : exception_what [a] = exception_what [AStr []; a].
+Proof. rewrite !exception_what_concat. reflexivity. Qed.
+
+Lemma flatten_map_op g ops : flatten_ops (map (map_op g) ops) = map g (flatten_ops ops).
+Proof.
+  unfold flatten_ops. induction ops as [|o ops IH]; [reflexivity|].
+  cbn [map concat]. rewrite map_app, <- IH. destruct o; reflexivity.
+Qed.
+
+Theorem format_ignores_conversion fmt ops :
+  format_chain fmt (map (map_op forget_conv) ops) = format_chain fmt ops.
+Proof. rewrite !percent_and_args_agree, flatten_map_op, map_render_forget_conv. reflexivity. Qed.
+
+Theorem format_conversion_irrelevant fmt ops c :
+  format_chain fmt (map (map_op (with_conv c)) ops) = format_chain fmt ops.
+Proof. rewrite !percent_and_args_agree, flatten_map_op, map_render_with_conv. reflexivity. Qed.
+
+(* the stream texts of the kinds the driver passes *)
+Theorem dual_stream_texts s :
+  render (dual KTagged s) = x3c :: s ++ [x3e] /\ render (dual KPath s) = quoted s
+  /\ render (dual KCstr s) = x5b :: s ++ [x5d] /\ render (dual KExplicit s) = x28 :: s ++ [x29]
+  /\ render (dual KView s) = s /\ render (dual KArray s) = s /\ render (dual KStreamOnly s) = x23 :: s.
+Proof. repeat split. Qed.
+
 (* ---------- the decimal printer ---------- *)
 
 Lemma parse_render_uint u : parse_uint (render_uint u) = Some u.
